@@ -9,6 +9,10 @@ func extraValue(t string, i int) string {
 	switch t {
 	case "ms.Extra":
 		return fmt.Sprintf("ms.Extra{V: %d}", 61+i)
+	case "*ms.Extra":
+		return fmt.Sprintf("&ms.Extra{V: %d}", 61+i)
+	case "*int":
+		return fmt.Sprintf("intp(%d)", 81+i)
 	case "int":
 		return fmt.Sprintf("%d", 71+i)
 	case "string":
@@ -39,28 +43,30 @@ var _ = ms.S{}
 var _ = md.D{}
 var _ = conv.LS{}
 
+func intp(v int) *int { return &v }
+
 func mkS(set int) ms.S {
-	s := ms.S{A: 11, B: 12, C: "c-src", D: 14, N: ms.Nest{X: 21, Y: 22, Z: "nz-src"}, Base: ms.Base{E1: 41, E2: "e2-src"}, Q: 51, R: "r-src"}
+	s := ms.S{A: 11, B: 12, C: "c-src", D: 14, N: ms.Nest{X: 21, Y: 22, Z: "nz-src", In: ms.Inner{W: 23, V: 24}}, Base: ms.Base{E1: 41, E2: "e2-src"}, Q: 51, R: "r-src"}
 	if set == 0 {
-		s.P = &ms.Nest{X: 31, Y: 32, Z: "pz-src"}
+		s.P = &ms.Nest{X: 31, Y: 32, Z: "pz-src", In: ms.Inner{W: 33, V: 34}}
 	}
 	return s
 }
 
 func mkLS(set int) conv.LS {
-	s := conv.LS{A: 11, B: 12, C: "c-src", D: 14, N: ms.Nest{X: 21, Y: 22, Z: "nz-src"}, Base: ms.Base{E1: 41, E2: "e2-src"}, Q: 51, R: "r-src"}
+	s := conv.LS{A: 11, B: 12, C: "c-src", D: 14, N: ms.Nest{X: 21, Y: 22, Z: "nz-src", In: ms.Inner{W: 23, V: 24}}, Base: ms.Base{E1: 41, E2: "e2-src"}, Q: 51, R: "r-src"}
 	if set == 0 {
-		s.P = &ms.Nest{X: 31, Y: 32, Z: "pz-src"}
+		s.P = &ms.Nest{X: 31, Y: 32, Z: "pz-src", In: ms.Inner{W: 33, V: 34}}
 	}
 	return s
 }
 
 func mkD() md.D {
-	return md.D{A: "pre-A", B: 901, C: "pre-C", D: "pre-D", N: md.Nest{X: "pre-NX", Y: 902, Z: "pre-NZ"}, P: &md.Nest{X: "pre-PX", Y: 904, Z: "pre-PZ"}, Base: md.Base{E1: "pre-E1", E2: "pre-E2"}, Q: 903, R: "pre-R"}
+	return md.D{A: "pre-A", B: 901, C: "pre-C", D: "pre-D", N: md.Nest{X: "pre-NX", Y: 902, Z: "pre-NZ", In: md.Inner{W: "pre-NW", V: 905}}, P: &md.Nest{X: "pre-PX", Y: 904, Z: "pre-PZ"}, Base: md.Base{E1: "pre-E1", E2: "pre-E2"}, Q: 903, R: "pre-R"}
 }
 
 func mkLD() conv.LD {
-	return conv.LD{A: "pre-A", B: 901, C: "pre-C", D: "pre-D", N: md.Nest{X: "pre-NX", Y: 902, Z: "pre-NZ"}, P: &md.Nest{X: "pre-PX", Y: 904, Z: "pre-PZ"}, Base: md.Base{E1: "pre-E1", E2: "pre-E2"}, Q: 903, R: "pre-R"}
+	return conv.LD{A: "pre-A", B: 901, C: "pre-C", D: "pre-D", N: md.Nest{X: "pre-NX", Y: 902, Z: "pre-NZ", In: md.Inner{W: "pre-NW", V: 905}}, P: &md.Nest{X: "pre-PX", Y: 904, Z: "pre-PZ"}, Base: md.Base{E1: "pre-E1", E2: "pre-E2"}, Q: 903, R: "pre-R"}
 }
 
 `)
@@ -97,7 +103,12 @@ func mkLD() conv.LD {
 			}
 		}
 		if mm.Style == "arg" {
-			fmt.Fprintf(&b, "\tdd := %s()\n\tres.Start = rt.Snap(dd)\n\tdp := &dd\n\tres.DstPtr = fmt.Sprintf(\"%%p\", dp)\n", mkD)
+			fmt.Fprintf(&b, "\tdd := %s()\n", mkD)
+			if mm.TwinOf != "" {
+				// the twin copies onto an object already holding the sentinels
+				b.WriteString("\trt.Sentinel(&dd)\n")
+			}
+			b.WriteString("\tres.Start = rt.Snap(dd)\n\tdp := &dd\n\tres.DstPtr = fmt.Sprintf(\"%p\", dp)\n")
 			args = append(args, "dp")
 		} else {
 			fmt.Fprintf(&b, "\tres.Start = rt.Snap(%s{})\n", dT)
